@@ -11,6 +11,9 @@ package main
 //                  rot.end            let the rotation finish
 //   query steps    q.snapU            start the query; it parks after the unrotated snapshot
 //                  q.snapR            let it take the rotated snapshot; it parks after it
+//                  q.check            let it go on until it has decided, for a segment it listed as unrotated, that the segment
+//                                     is (still) unrotated and is about to read the unrotated info (GetSSRsFromQSR); if the
+//                                     query never gets there (nothing listed as unrotated any more) the step is a no-op
 //                  q.search           let it search and finish
 // A step that cannot be forced (the goroutine needs a lock the parked one holds) makes the schedule infeasible.
 
@@ -54,7 +57,7 @@ func cmdVisSched(c Cmd) (interface{}, error) {
 	// getAllSegmentsInAggs (snapagg.*): whichever the query reaches
 	pU := []string{"snap.unrotated|" + qs, "snapagg.unrotated|" + qs}
 	pR := []string{"snap.rotated|" + qs, "snapagg.rotated|" + qs}
-	gateInstall("qid", append(append([]string{}, pU...), append(pR, "flush.unrotated.visible|*", "rot.metadata.visible|*", "rot.unrotated.removed|*")...))
+	gateInstall("qid", append(append([]string{}, pU...), append(pR, "search.unrotated|"+qs, "flush.unrotated.visible|*", "rot.metadata.visible|*", "rot.unrotated.removed|*")...))
 	// gate keys for writer points carry no qid: hookFn builds "point|<nil>" -> falls back to "point|*"
 	const W = 4 * time.Second
 	nextID := int(c.i64("first_id", 1))
@@ -159,6 +162,9 @@ func cmdVisSched(c Cmd) (interface{}, error) {
 			qTicket.letGo()
 			qTicket = gateArriveAny(pR, W)
 			ok = qTicket != nil
+		case st == "q.check":
+			qTicket.letGo()
+			qTicket = gateArrive("search.unrotated|"+qs, 300*time.Millisecond) // nil: the query took the rotated path / is done
 		case st == "q.search":
 			qTicket.letGo()
 			qTicket = nil
